@@ -59,6 +59,7 @@ var props = map[string]propInfo{
 	"C11": {Engine: "bgp", Quick: 1500, Thorough: 40000},
 	"C12": {Engine: "bgp", Quick: 1200, Thorough: 30000},
 	"C13": {Engine: "bgp", Quick: 1200, Thorough: 30000},
+	"C18": {Engine: "bgp", Quick: 400, Thorough: 10000, BatchSize: 10, PerRunTimeout: 120 * time.Second},
 	"C19": {Engine: "bgp", Quick: 1200, Thorough: 30000},
 	"C21": {Engine: "bgp", Quick: 800, Thorough: 20000},
 	"C22": {Engine: "bgp", Quick: 500, Thorough: 10000, BatchSize: 20},
